@@ -77,7 +77,7 @@ func init() {
 	register(&Def{
 		ID:          "C08",
 		Technique:   "typestate of the running fields (guard/stop-once/coupled/restart) on the interprocedural lockset+nil-state facts; goroutine accounting against the lifetime WaitGroup; status-flag predicate table; path queries in the stop function",
-		Explanation: "Decides: (D1) Close is guarded by the running state, performed under the lock and followed by clearing the channel field before the lock can be released; the stop cause and channel are written only by start/stop, the cause only on the guarded path (first cause wins); Start re-arms channel, cause and work channel before the workers start. (D2) no use of the channel, no send on / close of the work channel and no queue insert happens without the running state established in the same critical section (or a nil check downstream). (D3) reader, dispatcher and every batch worker are registered with the lifetime WaitGroup (Add dominates go, Done deferred first) and WaitStatus waits on it on every path. (D4) Closed is set exactly under err==io.EOF ∨ IsErrClosing, Stopped exactly under equality with the sentinel Stop passes, on exclusive branches. (D5) every path from Close ranges over all in-flight ids and all pending callbacks invoking their cancel functions. (D6) queued notifications are collected before the queue is cleared and re-queued after; the dispatcher gives up only when stopped ∧ queue empty. (D7) whoever removes a callback entry writes its slot or cancels its context on every path; the stop function clears the channel field only after Close. (D8) IsErrClosing is exactly err ≠ nil ∧ (errors.Is(ErrClosed) ∨ errors.Is(net.ErrClosed)); no nil-feasible path leads from the reader's parse of a record to the receive-failure stop; the callback table is assigned only at construction. (D9) the cause the stop function records is exactly the one it was called with. (D10) from every Lock of the server mutex no path reaches a return without an Unlock (direct, by a callee, or deferred).",
+		Explanation: "Decides: (D1) Close is guarded by the running state, performed under the lock and followed by clearing the channel field before the lock can be released; the stop cause and channel are written only by start/stop, the cause only on the guarded path (first cause wins); Start re-arms channel, cause and work channel before the workers start. (D2) no use of the channel, no send on / close of the work channel and no queue insert happens without the running state established in the same critical section (or a nil check downstream). (D3) reader, dispatcher and every batch worker are registered with the lifetime WaitGroup (Add dominates go, Done deferred first) and WaitStatus waits on it on every path. (D4) Closed is set exactly under err==io.EOF ∨ IsErrClosing, Stopped exactly under equality with the sentinel Stop passes, on exclusive branches. (D5) every path from Close ranges over all in-flight ids and all pending callbacks invoking their cancel functions. (D6) queued notifications are collected before the queue is cleared and re-queued after; the dispatcher gives up only when stopped ∧ queue empty. (D7) whoever removes a callback entry writes its slot or cancels its context on every path; the stop function clears the channel field only after Close. (D8) IsErrClosing is exactly err ≠ nil ∧ (errors.Is(ErrClosed) ∨ errors.Is(net.ErrClosed)); no nil-feasible path leads from the reader's parse of a record to the receive-failure stop; the callback table is assigned only at construction. (D9) the cause the stop function records is exactly the one it was called with. (D10) from every Lock of the server mutex no path reaches a return without an Unlock (direct, by a callee, or deferred). Also decided: the reader reaches no further Recv once it has found the server stopped; only the stop function cancels the callback table wholesale.",
 		NotDecided:  []string{"deadlock freedom and goroutine-leak freedom as liveness claims", "channels whose Close does not unblock Recv keep the reader alive until the next record", "that handlers honour cancellation"},
 		Assumptions: []string{"sync.Mutex / sync.WaitGroup semantics", "no code outside the repository can reach the unexported fields"},
 		RuleText:    ruleText,
